@@ -56,6 +56,9 @@ Dispatch ==
   \/ A = "Compare" /\ Compare(Line.arg.s, Line.arg.t)
   \/ A = "SetMember" /\ SetMember(Line.arg.o, Line.arg.t)
   \/ A = "ClearMember" /\ ClearMember(Line.arg.o)
+  \/ A = "UnlinkNext" /\ UnlinkNext(Line.arg.o)
+  \/ A = "UnlinkNextMove" /\ UnlinkNextMove(Line.arg.o)
+  \/ A = "MoveCtorFromMember" /\ MoveCtorFromMember(Line.arg.s, Line.arg.t)
   \/ A = "CopyCtorFromMember" /\ CopyCtorFromMember(Line.arg.s, Line.arg.t)
   \/ A = "CopyAssignFromMember" /\ CopyAssignFromMember(Line.arg.s, Line.arg.t)
   \/ A = "MoveAssignFromMember" /\ MoveAssignFromMember(Line.arg.s, Line.arg.t)
@@ -81,7 +84,8 @@ Guard ==
        [] A = "Compare" -> CanCompare(Line.arg.s, Line.arg.t)
        [] A = "SetMember" -> CanSetMember(Line.arg.o, Line.arg.t)
        [] A = "ClearMember" -> CanClearMember(Line.arg.o)
-       [] A = "CopyCtorFromMember" -> CanCopyCtorFromMember(Line.arg.s, Line.arg.t)
+       [] A \in {"UnlinkNext", "UnlinkNextMove"} -> CanUnlink(Line.arg.o)
+       [] A \in {"CopyCtorFromMember", "MoveCtorFromMember"} -> CanCopyCtorFromMember(Line.arg.s, Line.arg.t)
        [] A \in {"CopyAssignFromMember", "MoveAssignFromMember"} -> CanAssignFromMember(Line.arg.s, Line.arg.t)
        [] OTHER -> TRUE
 
